@@ -553,6 +553,7 @@ def c13(ctx):
             vmcases.append(cc)
     mc_vm(ctx, "transparent", cap_texts(vmcases, hi_cap=3 if quick else 4, first_cmd_only=False),
           what="VM(Codegen(spelling)) refines Semantics for subroutine and global spellings (relocation by Adjust), every command of multi-command programs")
+    session_histories(ctx)
     if not quick:
         glob = [c for c in vmcases if c["spelling"] == 2 and any("sub" in json.dumps(c["defs"]) for _ in [0])]
         mc_vm(ctx, "sens-AdjustKeepsSubId", cap_texts(glob or vmcases, hi_cap=3, first_cmd_only=False),
@@ -1181,3 +1182,126 @@ def c18(ctx):
         rep.setdefault(k, 0)
     ctx.absorb("C18-cli", rep)
     ctx.exhaustive = ctx.tier != "quick"
+
+
+# ------------------------------------------------------- C13 histories, C19
+def session_histories(ctx):
+    """All orders of repeated Compile/Run calls (spec/Histories.tla) replayed on live objects."""
+    anyc = {"k": "cls", "c": "any", "neg": False}
+    la, lb = lit(b"a"), lit(b"b")
+    find = lambda body: {"kind": "find", "amt": {"k": "all"}, "body": body}
+    src0 = {"id": 1, "defs": [{"name": "p", "es": [{"k": "or", "l": la, "r": lb}], "pred": []}],
+            "cmds": [find([{"k": "ref", "name": "p"}, {"k": "ref", "name": "p"}])]}
+    src1 = {"id": 2, "cmds": [find([{"k": "loop", "min": 1, "max": -1, "few": False, "name": "",
+                                     "body": {"k": "cap", "name": "x", "body": {"k": "seq", "es": [{"k": "in", "neg": False, "items": [la, lb]}]}}},
+                                    {"k": "loop", "min": 0, "max": 1, "few": False, "name": "", "body": {"k": "ref", "name": "x"}}])]}
+    texts = [list(b"abba b"), list(b"aab")]
+    for c in (src0, src1):
+        c["texts"] = texts
+    exps, st = vlib.eval_cases(ctx.scratch, [src0, src1])
+    ctx.states += st["distinct"]
+    ctx.transitions += st["states"]
+    expect = {}
+    for e in exps:
+        doc = json.loads(e)
+        for ti, r in enumerate(doc["r"]):
+            expect["%d,%d" % (doc["id"] - 1, ti)] = r["ms"]
+    srcs = []
+    for c in (src0, src1):
+        p = subprocess.run([ctx.get_harness(), "render"], input=json.dumps(c), capture_output=True, text=True)
+        srcs.append(p.stdout.strip())
+    d = ctx.scratch.sub("hist")
+    n = 4 if ctx.tier == "quick" else 5
+    out, sth = vlib.run_tlc(d, "Histories", "SPECIFICATION Spec\nCONSTANTS NSrc = 2\nNText = 2\nMaxLen = %d\nINVARIANTS RunsWellFormed Emit\nCHECK_DEADLOCK FALSE\n" % n,
+                            workers=4, timeout=600, heap="2g")
+    if not sth["ok"]:
+        raise Undecided("Histories.tla failed:\n" + vlib.tlc_error_excerpt(out))
+    ctx.add_mc("Histories", sth, "all histories of <= %d Compile/Run calls over 2 sources x 2 texts" % n)
+    ip, rp = os.path.join(d, "in.ndjson"), os.path.join(d, "report.json")
+    with open(ip, "w") as f:
+        for k, doc in enumerate(vlib.tlc_json_lines(out)):
+            h = json.loads(doc)
+            h.update({"id": k + 1, "srcs": srcs, "texts": texts, "expect": expect})
+            f.write(json.dumps(h, separators=(",", ":")) + "\n")
+    p = subprocess.run([ctx.get_harness(), "session", "-in", ip, "-report", rp], capture_output=True, text=True, timeout=900)
+    if p.returncode != 0 or not os.path.exists(rp):
+        raise Undecided("session replay failed: " + p.stderr[-1500:])
+    with open(rp) as f:
+        rep = json.load(f)
+    for k in ("abstained_quirk", "ast_checked", "ast_mismatch", "rejected_by_compile"):
+        rep.setdefault(k, 0)
+    for v in rep["violations"]:
+        v["property"] = ctx.prop
+    ctx.absorb(ctx.prop + "-histories", rep)
+
+
+RULES["C19"] = ("(i) all interleavings of 3 concurrent Compile processes (2, 1, 2 regex groups) of spec/Session.tla, locked "
+                "(must be sequentially equivalent) and unlocked (must give a counterexample); (ii) stress runs of 8 goroutines x "
+                "40 (quick) / 200 calls mixing Compile of sources with and without regex groups, Run on shared and on private "
+                "programs, under the Go race detector, each call compared with its sequential result; the recorded accesses of "
+                "the shared counter (hook H3, yields inside the hook) validated against spec/SessionTrace.tla; a case is one call; "
+                "non-trivial = a Compile of a source with regex groups (>= 2 counter accesses)")
+
+
+@check("C19")
+def c19(ctx):
+    ctx.technique = ("process model of the shared group counter spec/Session.tla model-checked (all interleavings; unlocked variant "
+                     "gives the counterexample); real goroutine runs under -race compared with sequential results and their H3 "
+                     "counter-access traces validated against spec/SessionTrace.tla")
+    quick = ctx.tier == "quick"
+    d = ctx.scratch.sub("mcsession")
+    cfg = ("SPECIFICATION Spec\nCONSTANTS Procs <- ProcsDef\nG <- GDef\nLocked = %s\nINVARIANTS SequentialNames %s\n%sCHECK_DEADLOCK FALSE\n")
+    out, st = vlib.run_tlc(d, "MC_Session", cfg % ("TRUE", "Exclusive", "PROPERTY AllFinish\n"), workers=4, timeout=300, heap="2g")
+    if not st["ok"]:
+        raise Undecided("MC_Session (locked) failed:\n" + vlib.tlc_error_excerpt(out))
+    ctx.add_mc("Session(locked)", st, "SequentialNames and Exclusive in every interleaving of 3 Compile processes; all finish")
+    d2 = ctx.scratch.sub("mcsession_unlocked")
+    out2, st2 = vlib.run_tlc(d2, "MC_Session", cfg % ("FALSE", "", ""), workers=4, timeout=300, heap="2g")
+    found = re.search(r"Error: Invariant (\w+) is violated", out2)
+    ok = bool(found) and found.group(1) == "SequentialNames"
+    ctx.sensitivity.append({"switch": ["Locked = FALSE"], "expected_violation": "SequentialNames", "tlc_reported": found.group(1) if found else None, "ok": ok})
+    if not ok:
+        raise Undecided("the unlocked counter model did not produce the mis-numbering counterexample")
+    # real goroutines under the race detector
+    race = vlib.build_harness(race=True)
+    total_calls, total_events, nontriv = 0, 0, 0
+    rounds = 3 if quick else 10
+    for r in range(rounds):
+        dd = ctx.scratch.sub("conc%d" % r)
+        env = dict(os.environ, GORACE="halt_on_error=0 exitcode=0")
+        p = subprocess.run([race, "concurrency", "-seed", str(ctx.seed * 100 + r), "-goroutines", "8", "-iters", "40" if quick else "200",
+                            "-trace", os.path.join(dd, "T.ndjson"), "-report", os.path.join(dd, "rep.json")],
+                           capture_output=True, text=True, timeout=600, env=env)
+        if p.returncode != 0 or not os.path.exists(os.path.join(dd, "rep.json")):
+            raise Undecided("concurrency run failed: " + p.stderr[-2000:])
+        with open(os.path.join(dd, "rep.json")) as f:
+            rep = json.load(f)
+        total_calls += rep["calls"]
+        total_events += rep["events"]
+        case = {"seed": ctx.seed * 100 + r, "goroutines": 8, "what": "vharness-race concurrency"}
+        if "DATA RACE" in p.stderr:
+            first = p.stderr[p.stderr.index("WARNING: DATA RACE"):][:1500]
+            ctx.violations.append({"kind": "race", "sig": "race", "family": "C19-goroutines", "src": "", "text": None, "case": case,
+                                   "detail": "the race detector reports unsynchronised access: " + " ".join(first.split())[:600]})
+        for pr in (rep.get("problems") or [])[:5]:
+            ctx.violations.append({"kind": "result", "sig": "result", "family": "C19-goroutines", "src": "", "text": None, "case": case,
+                                   "detail": "a concurrent call did not return what it returns alone: " + pr})
+        # the recorded counter accesses are a behaviour of the locked model
+        tcfg = "SPECIFICATION TraceSpec\nCONSTANT TraceFile = \"T.ndjson\"\nCONSTRAINT HighWater\nPOSTCONDITION TraceAccepted\nCHECK_DEADLOCK FALSE\n"
+        if rep["events"] > 0:
+            tout, tst = vlib.run_tlc(dd, "SessionTrace", tcfg, workers=1, timeout=600, heap="4g")
+            ctx.states += tst["distinct"]
+            ctx.transitions += tst["states"]
+            if "TRACE-REJECTED" in tout:
+                m = re.search(r'"TRACE-REJECTED at line",\s*(\d+)', tout)
+                ctx.violations.append({"kind": "interleaved", "sig": "interleaved", "family": "C19-goroutines", "src": "", "text": None, "case": case,
+                                       "detail": "counter sections of two goroutines interleave (trace line %s): the shared group counter is accessed without mutual exclusion" % (m.group(1) if m else "?")})
+            elif not tst["ok"]:
+                raise Undecided("TLC failed on spec/SessionTrace.tla:\n" + vlib.tlc_error_excerpt(tout))
+    ctx.evaluations += total_calls
+    ctx.nontrivial += total_events // 3
+    ctx.families["C19-goroutines"] = {"rounds": rounds, "calls": total_calls, "counter_events": total_events}
+    ctx.samples.append({"family": "C19-goroutines", "round": {"goroutines": 8, "sources": 7, "calls": total_calls // rounds}})
+    ctx.exhaustive = False
+    # repeated Compile/Run histories (sequential independence)
+    session_histories(ctx)
